@@ -17,261 +17,7 @@ from pta.model import load_sources
 from pta import core
 
 
-def has_nested(fn):
-    for n in ast.walk(fn):
-        if isinstance(n, (ast.FunctionDef, ast.Lambda, ast.ClassDef)) and n is not fn:
-            return True
-    return False
-
-
-def locals_of(fn):
-    params = {a.arg for a in fn.args.posonlyargs + fn.args.args + fn.args.kwonlyargs}
-    if fn.args.vararg: params.add(fn.args.vararg.arg)
-    if fn.args.kwarg: params.add(fn.args.kwarg.arg)
-    names = set()
-    for n in ast.walk(fn):
-        if isinstance(n, ast.Name) and isinstance(n.ctx, (ast.Store, ast.Del)):
-            names.add(n.id)
-        elif isinstance(n, ast.ExceptHandler) and n.name:
-            names.add(n.name)
-        elif isinstance(n, (ast.Global, ast.Nonlocal, ast.Import, ast.ImportFrom)):
-            return None
-    return names - params
-
-
-def t_rename(fn):
-    if has_nested(fn):
-        return None
-    loc = locals_of(fn)
-    if not loc:
-        return None
-
-    class R(ast.NodeTransformer):
-        def visit_Name(self, n):
-            if n.id in loc:
-                return ast.copy_location(ast.Name(id=n.id + "_rn", ctx=n.ctx), n)
-            return n
-
-        def visit_ExceptHandler(self, n):
-            self.generic_visit(n)
-            if n.name in loc:
-                n.name = n.name + "_rn"
-            return n
-    return R().visit(copy.deepcopy(fn))
-
-
-def t_ifswap(fn):
-    hit = [0]
-
-    class R(ast.NodeTransformer):
-        def visit_If(self, n):
-            self.generic_visit(n)
-            if n.orelse:
-                hit[0] += 1
-                test = n.test.operand if isinstance(n.test, ast.UnaryOp) and isinstance(n.test.op, ast.Not) else ast.UnaryOp(op=ast.Not(), operand=n.test)
-                return ast.copy_location(ast.If(test=test, body=n.orelse, orelse=n.body), n)
-            return n
-
-        def visit_IfExp(self, n):
-            self.generic_visit(n)
-            hit[0] += 1
-            test = n.test.operand if isinstance(n.test, ast.UnaryOp) and isinstance(n.test.op, ast.Not) else ast.UnaryOp(op=ast.Not(), operand=n.test)
-            return ast.copy_location(ast.IfExp(test=test, body=n.orelse, orelse=n.body), n)
-    new = R().visit(copy.deepcopy(fn))
-    return new if hit[0] else None
-
-
-def pure(e):
-    if isinstance(e, (ast.Name, ast.Constant)):
-        return True
-    if isinstance(e, ast.Attribute):
-        return pure(e.value)
-    if isinstance(e, ast.Call) and isinstance(e.func, ast.Name) and e.func.id == "len" and len(e.args) == 1:
-        return pure(e.args[0])
-    if isinstance(e, ast.BinOp):
-        return pure(e.left) and pure(e.right)
-    return False
-
-
-FLIP = {ast.Lt: ast.Gt, ast.Gt: ast.Lt, ast.LtE: ast.GtE, ast.GtE: ast.LtE, ast.Eq: ast.Eq, ast.NotEq: ast.NotEq}
-
-
-def t_cmpflip(fn):
-    hit = [0]
-
-    class R(ast.NodeTransformer):
-        def visit_Compare(self, n):
-            self.generic_visit(n)
-            if len(n.ops) == 1 and type(n.ops[0]) in FLIP and pure(n.left) and pure(n.comparators[0]):
-                hit[0] += 1
-                return ast.copy_location(ast.Compare(left=n.comparators[0], ops=[FLIP[type(n.ops[0])]()], comparators=[n.left]), n)
-            return n
-    new = R().visit(copy.deepcopy(fn))
-    return new if hit[0] else None
-
-
-def t_rettemp(fn):
-    if has_nested(fn):
-        return None
-    hit = [0]
-
-    class R(ast.NodeTransformer):
-        def visit_Return(self, n):
-            if n.value is None or isinstance(n.value, (ast.Name, ast.Constant)):
-                return n
-            hit[0] += 1
-            a = ast.Assign(targets=[ast.Name(id="rv_", ctx=ast.Store())], value=n.value)
-            r = ast.Return(value=ast.Name(id="rv_", ctx=ast.Load()))
-            return [ast.copy_location(a, n), ast.copy_location(r, n)]
-    new = R().visit(copy.deepcopy(fn))
-    return new if hit[0] else None
-
-
-def t_augexpand(fn):
-    """`x <<= 1` -> `x = x << 1` for integer-looking updates (shift, or +/- an int constant)"""
-    hit = [0]
-
-    class R(ast.NodeTransformer):
-        def visit_AugAssign(self, n):
-            if isinstance(n.target, ast.Name) and (isinstance(n.op, (ast.LShift, ast.RShift)) or
-                                                   (isinstance(n.op, (ast.Add, ast.Sub)) and isinstance(n.value, ast.Constant) and isinstance(n.value.value, int))):
-                hit[0] += 1
-                return ast.copy_location(ast.Assign(targets=[ast.Name(id=n.target.id, ctx=ast.Store())],
-                                                    value=ast.BinOp(left=ast.Name(id=n.target.id, ctx=ast.Load()), op=n.op, right=n.value)), n)
-            return n
-    new = R().visit(copy.deepcopy(fn))
-    return new if hit[0] else None
-
-
-def _ends_abrupt(body):
-    return bool(body) and isinstance(body[-1], (ast.Return, ast.Raise, ast.Continue, ast.Break))
-
-
-def t_elsify(fn):
-    """`if c: return x` followed by more statements -> `if c: return x else: <the rest>`"""
-    hit = [0]
-
-    def fix(block):
-        out = []
-        i = 0
-        while i < len(block):
-            s = block[i]
-            if isinstance(s, ast.If) and not s.orelse and _ends_abrupt(s.body) and i + 1 < len(block):
-                hit[0] += 1
-                s.orelse = fix(block[i + 1:])
-                out.append(s)
-                return out
-            out.append(s)
-            i += 1
-        return out
-
-    new = copy.deepcopy(fn)
-    for n in ast.walk(new):
-        for fld in ("body", "orelse", "finalbody"):
-            blk = getattr(n, fld, None)
-            if isinstance(blk, list) and blk and isinstance(blk[0], ast.stmt):
-                setattr(n, fld, fix(blk))
-    return new if hit[0] else None
-
-
-SIGS = {}
-
-
-def t_kwargify(fn):
-    """positional arguments of calls to functions / methods defined in the same file -> keyword arguments"""
-    hit = [0]
-
-    class R(ast.NodeTransformer):
-        def visit_Call(self, n):
-            self.generic_visit(n)
-            name = None
-            skip = 0
-            if isinstance(n.func, ast.Attribute) and isinstance(n.func.value, ast.Name) and n.func.value.id in ("self", "cls"):
-                name, skip = n.func.attr, 1
-            elif isinstance(n.func, ast.Name):
-                name = n.func.id
-            sig = SIGS.get(name)
-            if sig is None or any(isinstance(a, ast.Starred) for a in n.args) or not n.args:
-                return n
-            params, is_method = sig
-            if is_method != bool(skip):
-                return n
-            params = params[skip:]
-            if len(n.args) > len(params):
-                return n
-            hit[0] += 1
-            kws = [ast.keyword(arg=params[i], value=a) for i, a in enumerate(n.args)]
-            return ast.copy_location(ast.Call(func=n.func, args=[], keywords=kws + n.keywords), n)
-    new = R().visit(copy.deepcopy(fn))
-    return new if hit[0] else None
-
-
-def t_inlinetmp(fn):
-    """`x = e` immediately followed by the only statement that reads x (once) -> e inlined there"""
-    if has_nested(fn):
-        return None
-    hit = [0]
-    new = copy.deepcopy(fn)
-    loads, stores = {}, {}
-    for n in ast.walk(new):
-        if isinstance(n, ast.Name):
-            d = loads if isinstance(n.ctx, ast.Load) else stores
-            d[n.id] = d.get(n.id, 0) + 1
-
-    def simple(stmt):
-        return isinstance(stmt, (ast.Assign, ast.Expr, ast.Return, ast.AugAssign))
-
-    def fix(block):
-        out = []
-        i = 0
-        while i < len(block):
-            s_ = block[i]
-            if isinstance(s_, ast.Assign) and len(s_.targets) == 1 and isinstance(s_.targets[0], ast.Name) and i + 1 < len(block) and simple(block[i + 1]):
-                nm = s_.targets[0].id
-                nxt = block[i + 1]
-                uses = [x for x in ast.walk(nxt) if isinstance(x, ast.Name) and x.id == nm and isinstance(x.ctx, ast.Load)]
-                inside_scope = any(isinstance(x, (ast.Lambda, ast.ListComp, ast.GeneratorExp, ast.SetComp, ast.DictComp)) for x in ast.walk(nxt))
-                if loads.get(nm, 0) == 1 and stores.get(nm, 0) == 1 and len(uses) == 1 and not inside_scope and not isinstance(s_.value, (ast.Yield, ast.YieldFrom, ast.Await)):
-                    # the use must be the first thing evaluated that could have an effect: keep it simple - only when
-                    # the next statement evaluates nothing with effects before the use (names / constants / attributes)
-                    first_effect = None
-                    for x in ast.walk(nxt):
-                        if isinstance(x, (ast.Call, ast.Subscript)):
-                            first_effect = x
-                            break
-                    ok = first_effect is None or any(y is uses[0] for y in ast.walk(first_effect)) and not any(
-                        isinstance(y, (ast.Call, ast.Subscript)) and y is not first_effect and not any(z is uses[0] for z in ast.walk(y)) for y in ast.walk(first_effect))
-                    if ok:
-                        class R(ast.NodeTransformer):
-                            def visit_Name(self, n):
-                                return s_.value if n is uses[0] else n
-                        out.append(R().visit(nxt))
-                        hit[0] += 1
-                        i += 2
-                        continue
-            out.append(s_)
-            i += 1
-        return out
-
-    for n in ast.walk(new):
-        for fld in ("body", "orelse", "finalbody"):
-            blk = getattr(n, fld, None)
-            if isinstance(blk, list) and blk and isinstance(blk[0], ast.stmt):
-                setattr(n, fld, fix(blk))
-    return new if hit[0] else None
-
-
-MODES = {"inlinetmp": t_inlinetmp, "augexpand": t_augexpand, "elsify": t_elsify, "kwargify": t_kwargify, "rename": t_rename, "ifswap": t_ifswap, "cmpflip": t_cmpflip, "rettemp": t_rettemp}
-
-
-def splice(src, fn, new):
-    ast.fix_missing_locations(new)
-    lines = src.splitlines(keepends=True)
-    start = (fn.decorator_list[0].lineno if fn.decorator_list else fn.lineno) - 1
-    end = fn.end_lineno
-    indent = len(lines[fn.lineno - 1]) - len(lines[fn.lineno - 1].lstrip())
-    text = textwrap.indent(ast.unparse(new), " " * indent) + "\n"
-    return "".join(lines[:start]) + text + "".join(lines[end:])
+from pta.refactor import MODES, SIGS, splice, index_signatures  # noqa: E402
 
 
 def job(args):
@@ -303,19 +49,7 @@ def main(mode, only):
         if "/tools/" in rel:
             continue
         tree = ast.parse(src)
-        SIGS.clear()
-        counts = {}
-        for n in ast.walk(tree):
-            if isinstance(n, ast.FunctionDef):
-                counts[n.name] = counts.get(n.name, 0) + 1
-        for top in tree.body:
-            if isinstance(top, ast.FunctionDef) and counts[top.name] == 1 and not top.args.vararg and not top.args.posonlyargs:
-                SIGS[top.name] = ([a.arg for a in top.args.args], False)
-            if isinstance(top, ast.ClassDef):
-                for m in top.body:
-                    if isinstance(m, ast.FunctionDef) and counts[m.name] == 1 and not m.args.vararg and not m.args.posonlyargs \
-                            and not any(ast.unparse(d) in ("staticmethod", "property") for d in m.decorator_list):
-                        SIGS[m.name] = ([a.arg for a in m.args.args], True)
+        index_signatures(tree)
         # innermost functions only are spliced (outer ones would overlap)
         for n in ast.walk(tree):
             if isinstance(n, ast.FunctionDef):
